@@ -159,9 +159,12 @@ void task_group_context_impl::bind_to_impl(d1::task_group_context& ctx, thread_d
     } else {
         register_with(ctx, td); // Issues full fence
         // As we do not have grand-ancestors, concurrent state propagation (if any)
-        // may originate only from the parent context, and thus it is safe to directly
-        // copy the state from it.
-        ctx.my_cancellation_requested.store(ctx.my_parent->my_cancellation_requested.load(std::memory_order_relaxed), std::memory_order_relaxed);
+        // may originate only from the parent context. The context is already visible to
+        // the propagating thread, so only a set state is copied: storing a stale zero could
+        // overwrite the cancellation that the propagation has just delivered.
+        if (ctx.my_parent->my_cancellation_requested.load(std::memory_order_relaxed)) {
+            ctx.my_cancellation_requested.store(1, std::memory_order_relaxed);
+        }
     }
 }
 
